@@ -35,9 +35,13 @@ def anchors_drifted(prop):
 def evaluate(prop, cases, stats, jobs=None):
     """Run real code + model on `cases`; returns (violations, disagreements, records)."""
     t0 = time.time()
-    obs_list = []
-    for c in cases:
-        obs_list.append(prop.real(c))
+    if getattr(prop, 'INPROCESS', False):
+        obs_list = [prop.real(c) for c in cases]
+    else:
+        obs_list = core.run_real(prop.PID, cases, env=getattr(prop, 'ENV', None))
+    for o in obs_list:
+        if o.get('err') == 'HarnessException':
+            raise core.HarnessError('real() failed inside the harness: %s' % o.get('msg'))
     stats['t_real'] = stats.get('t_real', 0) + time.time() - t0
     t0 = time.time()
     reqs = [prop.request(c, o) for c, o in zip(cases, obs_list)]
